@@ -28,6 +28,7 @@ type Ev struct {
 	quiet bool
 	qvars []string // binders of enclosing spec quantifiers
 	wfSeen map[string]bool
+	matPairs [][2]*Loc // (temporary, original location) of pointers materialized for the call in progress
 	qindex map[string][][2]string // bound variable -> (offset term, select term) of its uses as a plain slice index (first two distinct arrays)
 	inTypeInv bool
 	noPack bool
@@ -1425,7 +1426,9 @@ func (e *Ev) composite(n *ast.CompositeLit) Term {
 				return e.errorf(n, "keyed slice literal unsupported")
 			}
 			var v Term
-			if cl, ok := el.(*ast.CompositeLit); ok && cl.Type == nil {
+			if cl, ok := el.(*ast.CompositeLit); ok && cl.Type == nil && !e.spec {
+				v = e.composite(cl) // go/types records the elided element type
+			} else if ok && cl.Type == nil {
 				v = e.errorf(n, "elided element type unsupported")
 			} else {
 				v = e.toType(e.ev(el), u.Elem(), n)
